@@ -29,13 +29,21 @@ static void predicates(const std::string& key, const std::vector<CL>& a, const s
                        double eps, double C) {
     int n = (int)a.size() - 1;
     vh::P("root_count", key + ".count", std::abs((double)r.size() - n), 0);
-    double worst = 0; bool nan = false;
+    // "tolerance proportional to the coefficient scale and the root's conditioning": the residual of root z is
+    // measured relative to S(z) = sum |a_i||z|^(n-i) and allowed C*n*eps*(1+kappa(z)), kappa(z) = S(z)/(|z||p'(z)|)
+    // the relative condition number of z (infinite for a multiple root, O(1..100) for simple separated roots).
+    double worst = 0; bool nan = false; long double kmax = 0;
     for (auto z : r) {
         if (std::isnan((double)z.real()) || std::isnan((double)z.imag())) { nan = true; continue; }
         long double res = std::abs(polyAt(a, z)), sc = polyScaleAt(a, z);
-        worst = std::max(worst, (double)(res / (sc > 0 ? sc : 1)));
+        CL dp = 0; for (int i = 0; i < n; ++i) dp = dp * z + a[i] * (long double)(n - i);
+        long double den = std::abs(z) * std::abs(dp);
+        long double kappa = den > 0 ? sc / den : INFINITY;
+        kmax = std::max(kmax, kappa);
+        worst = std::max(worst, (double)(res / (sc > 0 ? sc : 1) / (1 + kappa)));
     }
     vh::P("residual_rel", key + ".residual", nan ? NAN : worst, C * n * eps);
+    C *= (double)std::min<long double>(1 + kmax, 1e300L);   // Vieta bounds scale with the worst root conditioning
     // Vieta: sum of roots = -a1/a0, product = (-1)^n an/a0
     CL sum = 0, prod = 1; long double sabs = 0, pabs = 1;
     for (auto z : r) { sum += z; prod *= z; sabs += std::abs(z); pabs *= std::abs(z); }
@@ -110,6 +118,50 @@ static void polyCase(vh::Rng& g, int n, bool cx, bool viaVec4) {
     predicates(tag, A, R, !cx, NTraits<double>::getEps(), 1e4);
 }
 
+// polynomial built from known roots (multiple / clustered / zero / widely scaled); coefficients expanded in
+// long double and rounded; the predicates are evaluated against the rounded polynomial actually given
+template <class T> static void knownRootsCase(vh::Rng& g, int n, int kind) {
+    std::vector<CL> roots; bool cx = (kind == 4);
+    while ((int)roots.size() < n) {
+        long double re, im = 0;
+        switch (kind) {
+          case 0: re = g.smallInt(-3, 3); break;                                   // multiple integer roots incl. 0
+          case 1: re = 1.0 + 1e-3 * g.smallInt(-3, 3); break;                      // cluster near 1
+          case 2: re = std::pow(10.0, g.smallInt(-3, 3)) * (g.coin() ? 1 : -1); break; // widely scaled
+          case 3: re = g.signedMag(0.1, 3); im = g.coin() ? g.range(0.1, 3) : 0; break; // conjugate pairs
+          default: re = g.signedMag(0.1, 3); im = g.signedMag(0.1, 3); break;      // complex coefficients
+        }
+        roots.push_back(CL(re, im));
+        if (kind == 3 && im != 0 && (int)roots.size() < n) roots.push_back(CL(re, -im));
+        else if (kind == 3 && im != 0) roots.back() = CL(re, 0);
+    }
+    std::vector<CL> a(1, CL(g.smallInt(1, 3), 0));
+    for (auto r : roots) { a.push_back(0); for (int i = (int)a.size() - 1; i >= 1; --i) a[i] -= r * a[i - 1]; }
+    std::vector<std::complex<T> > at(n + 1); for (int i = 0; i <= n; ++i) at[i] = std::complex<T>((T)a[i].real(), cx ? (T)a[i].imag() : (T)0);
+    Vector_<std::complex<T> > out(n);
+    if (cx) { Vector_<std::complex<T> > co(n + 1); for (int i = 0; i <= n; ++i) co[i] = at[i]; PolynomialRootFinder::findRoots(co, out); }
+    else { Vector_<T> co(n + 1); for (int i = 0; i <= n; ++i) co[i] = at[i].real(); PolynomialRootFinder::findRoots(co, out); }
+    const char* kn[] = {"multint", "cluster", "widescale", "conjpairs", "cxknown"};
+    // input class: does the polynomial have a repeated / tightly clustered root?  (rpoly's deflation loses accuracy on
+    // the remaining roots in that case: known finding, keyed separately from the simple-root class)
+    long double minsep = INFINITY;
+    for (size_t i = 0; i < roots.size(); ++i) for (size_t j = i + 1; j < roots.size(); ++j)
+        minsep = std::min(minsep, std::abs(roots[i] - roots[j]) / std::max<long double>(std::max(std::abs(roots[i]), std::abs(roots[j])), 1e-300L));
+    std::string tag = std::string(sizeof(T) == 4 ? "f." : "") + "known." + kn[kind] + (minsep < 0.05L ? ".multiple" : ".simple");
+    std::vector<CL> A, R; for (auto c : at) A.push_back(CL(c)); for (int i = 0; i < n; ++i) R.push_back(CL(out[i]));
+    if (sizeof(T) == 8) {
+        vh::Line in = vh::I("polyCheck"); in.i(n);
+        for (auto c : at) in.d((double)c.real()).d((double)c.imag());
+        for (auto z : R) in.d((double)z.real()).d((double)z.imag());
+        in.emit(); std::printf("O polyCheck 1\n");
+    } else {   // float instantiation: implementation-side predicates only (the exact contract is for binary64 data)
+        vh::Line in = vh::I("polyFloat"); in.i(n); for (auto c : at) in.d((double)c.real()).d((double)c.imag()); in.emit();
+        std::printf("O polyFloat -\n");
+    }
+    vh::D(tag + ".deg" + std::to_string(n));
+    predicates(tag, A, R, !cx, NTraits<T>::getEps(), 1e5);
+}
+
 static void replay() {
     char buf[1 << 16];
     while (std::fgets(buf, sizeof buf, stdin)) {
@@ -133,12 +185,18 @@ int main(int argc, char** argv) {
         else if (stream == 3) quadRealCase<double>("quadReal", a, 0.0, c, "bzero");               // +-sqrt branch, both signs of disc
         else if (stream == 4) { double p = g.smallInt(1, 9), q = g.smallInt(1, 9);                // exact double root (p x + q)^2
             quadRealCase<double>("quadReal", p * p, 2 * p * q * (g.coin() ? 1 : -1), q * q, "double"); }
-        else if (stream == 5) quadRealCase<double>("quadReal", g.smallInt(1, 9) * (g.coin() ? 1 : -1), g.smallInt(-9, 9), g.smallInt(-9, 9), "smallint");
+        else if (stream == 5) { int sub = g.below(4);
+            if (sub == 0) quadRealCase<double>("quadReal", g.smallInt(1, 9) * (g.coin() ? 1 : -1), g.smallInt(-9, 9), g.smallInt(-9, 9), "smallint");
+            else if (sub == 1) quadRealCase<double>("quadReal", a, b, 0.0, "czero");
+            else if (sub == 2) quadRealCase<double>("quadReal", a * std::pow(10.0, g.smallInt(-6, 6)), b * std::pow(10.0, g.smallInt(-6, 6)), c * std::pow(10.0, g.smallInt(-6, 6)), "widescale");
+            else quadCxCase({a * std::pow(10.0, g.smallInt(-6, 6)), g.signedMag(0.1, 10)}, {b, g.signedMag(0.1, 10) * std::pow(10.0, g.smallInt(-6, 6))}, {c, g.signedMag(0.1, 10)}, "widescale"); }
         else if (stream == 6) { if (g.coin()) quadRealCase<float>("quadRealF", a, b, c, "generic"); else quadRealCase<float>("quadRealF", a, 0.0, c, "bzero"); }
         else if (stream == 7) quadCxCase({a, g.signedMag(0.1, 10)}, {b, g.signedMag(0.1, 10)}, {c, g.signedMag(0.1, 10)}, "generic");
         else if (stream == 8) { if (g.coin()) quadCxCase({a, g.signedMag(0.1, 10)}, {0, 0}, {c, g.signedMag(0.1, 10)}, "bzero");
                                 else quadCxCase({a, 0}, {b, 0}, {c, 0}, "realcoef"); }
-        else { int n = 3 + g.below(args.n > 1000 ? 18 : 10); polyCase(g, n, g.coin(), g.coin()); }
+        else if (g.coin()) { int n = 3 + g.below(args.n > 1000 ? 18 : 10); polyCase(g, n, g.coin(), g.coin()); }
+        else { int kind = g.below(5); int n = 2 + g.below(kind <= 1 ? 5 : 9);
+               if (g.below(4) == 0) knownRootsCase<float>(g, std::min(n, 6), kind); else knownRootsCase<double>(g, n, kind); }
     }
     return 0;
 }
